@@ -140,11 +140,121 @@ def model_P4(maxlen=4):
     return p, dict(prog=p.struct(), active=[1, 2], cmds=cmds, maxlen=maxlen, univ=[]), None
 
 
-MODELS = {"P1": model_P1, "P2": model_P2, "P3": model_P3, "P4": model_P4}
+def model_P5(maxlen=3):
+    """P5: two rulesets sharing tables, a combined ruleset, a rule declared late; schedule laws as invariants."""
+    p = Prog()
+    A = p.add("A", "con", [], "E"); B = p.add("B", "con", [], "E")
+    F = p.add("F", "con", ["E"], "E"); H = p.add("H", "con", ["E", "E"], "E")
+    R = p.add("R", "con", ["E", "E"], "RelSort0", rel=True)
+    p.rsets += [dict(name="rs0", kind="rules", subs=[]), dict(name="rs1", kind="rules", subs=[]),
+                dict(name="comb", kind="comb", subs=["rs0", "rs1"])]
+    V = lambda n: {"v": n}
+    T = lambda f, a, o: dict(k="tab", f=f, a=a, o=o)
+    W = {"w": 1}
+    p.rules.append(dict(rs="rs0", name="edge", body=[T(H, [V(1), V(2)], V(3))], head=[dict(k="ins", t={"f": R, "a": [V(1), V(2)]})]))
+    p.rules.append(dict(rs="rs0", name="trans", body=[T(R, [V(1), V(2)], W), T(R, [V(2), V(3)], W)],
+                        head=[dict(k="ins", t={"f": R, "a": [V(1), V(3)]})]))
+    p.rules.append(dict(rs="rs1", name="ff", body=[T(F, [V(1)], V(2)), T(F, [V(2)], V(3))], head=[dict(k="union", l=V(3), r=V(1))]))
+    p.rules.append(dict(rs="rs1", name="sym", body=[T(R, [V(1), V(2)], W)], head=[dict(k="ins", t={"f": H, "a": [V(2), V(1)]})]))
+    t = lambda f, *a: {"f": f, "a": list(a)}
+    a, b = t(A), t(B)
+    run = lambda rs: dict(k="run", rs=rs, until=[])
+    rep = lambda n, *b: dict(k="rep", n=n, b=list(b))
+    seq = lambda *b: dict(k="seq", b=list(b))
+    sat = lambda *b: dict(k="sat", b=list(b))
+    r0, r1, rc = run("rs0"), run("rs1"), run("comb")
+    cmds = [dict(k="ins", t=t(H, a, b)), dict(k="ins", t=t(H, b, t(F, t(F, a)))), dict(k="ins", t=t(H, t(F, a), a)),
+            dict(k="union", a=a, b=t(F, b)), dict(k="rule", r=4),
+            dict(k="run", s=r0), dict(k="run", s=r1), dict(k="run", s=rc), dict(k="run", s=sat(r0))]
+    laws = [[rep(2, r0), seq(r0, r0)], [rep(2, rep(2, r0)), rep(4, r0)], [rep(3, rc), seq(rc, rc, rc)],
+            [seq(r0, seq(r1, r0)), seq(seq(r0, r1), r0)], [seq(r0, r1, r0), seq(seq(r0, r1), r0)],
+            [seq(sat(r0), sat(r0)), sat(r0)], [rep(2, seq(r0, r1)), seq(r0, r1, r0, r1)],
+            [rep(1, r0), r0], [rep(0, r0), seq()]]
+    return p, dict(prog=p.struct(), active=[1, 2, 3], cmds=cmds, maxlen=maxlen, univ=[], laws=laws, sats=[r0, seq(r0, r1)]), None
+
+
+def prog_PW():
+    """PW: every lattice merge written from rule heads: the rows W*(batch, key, value) staged by
+    top-level inserts are all applied in ONE iteration once (Go batch) is present, so one
+    iteration writes a chosen multiset of values to one key (in-batch collisions), in the
+    order the rows were inserted."""
+    p = Prog()
+    A = p.add("A", "con", [], "E"); B = p.add("B", "con", [], "E")
+    fns = {}
+    for m, out in (("min", "i64"), ("max", "i64"), ("or", "bool"), ("and", "bool"), ("union", "SetI"), ("inter", "SetI")):
+        fns[m] = p.add("f" + m, "fn", ["E"], out, merge=m)
+    Wi = p.add("Wi", "con", ["i64", "E", "i64"], "RelSort0", rel=True)
+    Wb = p.add("Wb", "con", ["i64", "E", "bool"], "RelSort1", rel=True)
+    Ws = p.add("Ws", "con", ["i64", "E", "SetI"], "RelSort2", rel=True)
+    Go = p.add("Go", "con", ["i64"], "RelSort3", rel=True)
+    p.rsets.append(dict(name="rs0", kind="rules", subs=[]))
+    V = lambda n: {"v": n}
+    T = lambda f, a, o: dict(k="tab", f=f, a=a, o=o)
+    W = {"w": 1}
+    for m, rel in (("min", Wi), ("max", Wi), ("or", Wb), ("and", Wb), ("union", Ws), ("inter", Ws)):
+        p.rules.append(dict(rs="rs0", name="w" + m, body=[T(Go, [V(1)], W), T(rel, [V(1), V(2), V(3)], W)],
+                            head=[dict(k="set", f=fns[m], a=[V(2)], t=V(3))]))
+    return p, fns, dict(Wi=Wi, Wb=Wb, Ws=Ws, Go=Go, A=A, B=B)
+
+
+def model_PW(maxlen=4):
+    p, fns, d = prog_PW()
+    t = lambda f, *a: {"f": f, "a": list(a)}
+    a, b = t(d["A"]), t(d["B"])
+    I = lambda n: {"i": n}
+    cmds = [dict(k="ins", t=t(d["Wi"], I(1), a, I(v))) for v in (0, 1, 2)]
+    cmds += [dict(k="ins", t=t(d["Wi"], I(1), b, I(1)))]
+    cmds += [dict(k="ins", t=t(d["Ws"], I(1), a, {"set": s})) for s in ([1], [2], [1, 2])]
+    cmds += [dict(k="ins", t=t(d["Wb"], I(1), a, I(v))) for v in (0, 1)]
+    cmds += [dict(k="ins", t=t(d["Go"], I(1))), dict(k="union", a=a, b=b),
+             dict(k="run", s=dict(k="run", rs="rs0", until=[]))]
+    return p, dict(prog=p.struct(), active=list(range(1, 7)), cmds=cmds, maxlen=maxlen, univ=[]), None
+
+
+def writes_sessions(n, seed):
+    """seeded arrangements: a multiset of writes per key, a permutation, a split into batches
+    (rule iterations) and top-level sets, optionally a union collapsing the two keys"""
+    import random
+    r = random.Random(seed)
+    p, fns, d = prog_PW()
+    t = lambda f, *a: {"f": f, "a": list(a)}
+    I = lambda n: {"i": n}
+    keys = [t(d["A"]), t(d["B"])]
+    out = []
+    for k in range(n):
+        m = r.choice(["min", "max", "or", "and", "union", "inter"])
+        rel = {"min": "Wi", "max": "Wi", "or": "Wb", "and": "Wb", "union": "Ws", "inter": "Ws"}[m]
+        def val():
+            if rel == "Wi":
+                return I(r.randrange(4))
+            if rel == "Wb":
+                return I(r.randrange(2))
+            return {"set": sorted(set(r.randrange(4) for _ in range(r.randrange(0, 3))))}
+        nw = r.choice([2, 3, 3, 4, 5])
+        writes = [(r.choice([1, 1, 2]), r.choice(keys), val()) for _ in range(nw)]
+        cmds = []
+        for (bt, key, v) in writes:
+            if r.random() < 0.2:
+                cmds.append(dict(k="set", f=fns[m], a=[key], v=v))
+            else:
+                cmds.append(dict(k="ins", t=t(d[rel], I(bt), key, v)))
+        run = dict(k="run", s=dict(k="run", rs="rs0", until=[]))
+        tail = [dict(k="ins", t=t(d["Go"], I(1))), run, dict(k="ins", t=t(d["Go"], I(2))), run]
+        if r.random() < 0.5:
+            tail.insert(r.randrange(len(tail) + 1), dict(k="union", a=keys[0], b=keys[1]))
+        cmds += tail
+        m_ = dict(prog=p.struct(), active=list(range(1, 7)), cmds=cmds)
+        out.append(replay_session(p, m_, list(range(1, len(cmds) + 1)), "c05w-%d" % k))
+    return out
+
+
+MODELS = {"P5": model_P5, "PW": model_PW, "P1": model_P1, "P2": model_P2, "P3": model_P3, "P4": model_P4}
 
 
 def write_model(name, path, **kw):
     p, m, inv = MODELS[name](**kw)
+    m.setdefault("laws", [])
+    m.setdefault("sats", [])
     with open(path, "w") as f:
         f.write(json.dumps(m, separators=(",", ":")) + "\n")
     return p, m, inv
